@@ -18,7 +18,7 @@ ASSUMPTIONS = ["from_adj_list only on square mazes whose highest row and column 
 NSHARDS = {"quick": 16, "thorough": 16}
 THRESHOLDS = {"quick": {
     "c13:nodes_connected": 1000, "c13:neighbors": 1000, "c13:degrees": 1000, "c13:component": 1000, "c13:valid-path": 1000,
-    "c13:invalid-path:broken": 300, "c13:invalid-path:oob-neg": 300, "c13:invalid-path:oob-big": 300, "c13:empty-path": 1000,
+    "c13:invalid-path:broken": 300, "c13:invalid-path:oob-neg": 300, "c13:invalid-path:oob-big": 300, "c13:empty-path": 1000, "c13:one-cell-path": 3000,
     "c13:adj-list": 1000, "c13:is_connection": 1000, "c13:from_adj_list": 300, "c13:oblong": 100, "c13:forks": 500,
     "c13:lattice_connection_array": 10, "c13:lattice_max_degrees": 10, "c13:manhattan": 100, "c13:get_nodes": 1000,
     "c13:exh-structures": 6541,
@@ -197,6 +197,13 @@ def _paths(ctx, maze, g, cells, case, rng, n):
                     if not exp:
                         ctx.tally("c13:invalid-path:broken")
                     ctx.check(bool(r) == exp, "C13/is_valid_path-wrong", f"path={bad} expected {exp} got {r}", dict(case, path=bad))
+        # one-cell paths: a cell of the grid is a (trivially) valid path, a cell outside it is not
+        for cell, exp1 in ((walk[0], True), ((-1, int(rng.integers(C))), False), ((int(rng.integers(R)), -1), False), ((R, int(rng.integers(C))), False),
+                           ((int(rng.integers(R)), C), False), ((R + 3, C + 3), False)):
+            with ctx.guard("C13/is_valid_path", case):
+                r = maze.is_valid_path(np.array([cell]))
+                ctx.ev(); ctx.tally("c13:one-cell-path")
+                ctx.check(bool(r) is exp1, "C13/is_valid_path-wrong-on-one-cell-path", f"path=[{cell}] grid {R}x{C}: expected {exp1} got {r}", dict(case, path=[cell]))
         # out of bounds
         for kind, cell in (("oob-neg", (-1, 0) if rng.random() < 0.5 else (0, -1)),
                            ("oob-big", (R, 0) if rng.random() < 0.5 else (0, C))):
